@@ -93,10 +93,17 @@ def build_config(topo):
             n += 1
             sn = "s_%s_ent" % name
             switches[sn] = {"number": str(n)}
-            cfg["entrance_switch"] = sn
+            lanes = [sn]
+            for k in range(1, d.get("lanes", 1)):
+                n += 1
+                switches["s_%s_ent%d" % (name, k)] = {"number": str(n)}
+                lanes.append("s_%s_ent%d" % (name, k))
+            cfg["entrance_switch"] = ", ".join(lanes)
             cfg["ball_capacity"] = d["slots"]
             cfg["counter"] = {"class": "mpf.devices.ball_device.entrance_switch_counter.EntranceSwitchCounter",
                               "settle_time_ms": d.get("settle_time_ms", 500)}
+            if d.get("ignore_window_ms"):
+                cfg["counter"]["entrance_switch_ignore_window_ms"] = d["ignore_window_ms"]
             if d.get("full_timeout_ms"):
                 # Gottlieb-style: the ball that fills the device rests on the entrance switch
                 cfg["counter"]["entrance_switch_full_timeout"] = d["full_timeout_ms"]
@@ -212,7 +219,10 @@ class PDev:
         self.rest_since = {}                     # ball id -> time it came to rest here
         self.plunge_pending = False
         self.entrance_busy_until = -1.0
+        self.ignore_window = d.get("ignore_window_ms", 0) / 1000.0   # per entrance switch debounce configured in MPF
+        self.lane_free_at = [-1.0]                                   # per entrance lane: next time a ball may pass
         self.last_launched_ball = None
+        self.lanes_independent = d.get("lanes", 1) > 1
         self.leaving_until = -1.0                # entrance-counted: an ejected ball is on its way out until then
         self.full_timeout = d.get("full_timeout_ms", 0) / 1000.0   # >0: the filling ball rests on the entrance switch
         self.entrance_held = False                                   # a ball rests on the entrance switch
@@ -269,7 +279,9 @@ class World:
                     self.balls[b] = ("dev", pd.name)
                     pd.rest_since[b] = -1000.0
             else:
-                pd.switch_names = ["s_%s_ent" % pd.name]
+                pd.switch_names = ["s_%s_ent" % pd.name] + ["s_%s_ent%d" % (pd.name, k)
+                                                            for k in range(1, d.get("lanes", 1))]
+                pd.lane_free_at = [-1.0] * len(pd.switch_names)
                 if pd.full_timeout and d.get("initial", 0) == pd.capacity:
                     for i in range(pd.capacity):
                         b = self._new_ball()
@@ -545,14 +557,17 @@ class World:
                 self.after(td.leaving_until - self.now() + self._u(0.03, 0.1), self._arrive, ball, src, dst,
                            by_mpf, outcome)
                 return
-            if self.now() < td.entrance_busy_until:
-                # two balls cannot pass one entrance switch at the same time: the second one queues behind the first
-                # and closes the switch only after it has opened again
+            # the ball takes one of the entrance lanes.  Two balls cannot pass one entrance switch at the same time, and
+            # (as the machine's entrance_switch_ignore_window_ms says) not within that window either: a second ball in
+            # the same lane queues behind the first.  Different lanes are independent.
+            free = [k for k, t in enumerate(td.lane_free_at) if self.now() >= t]
+            if not free or (not td.lanes_independent and self.now() < td.entrance_busy_until):
                 self.stats["arrivals"] -= 1
                 self.arrival_log.pop()
-                self.after(td.entrance_busy_until - self.now() + self._u(0.03, 0.1), self._arrive, ball, src, dst,
-                           by_mpf, outcome)
+                wait = max(min(td.lane_free_at) - self.now(), td.entrance_busy_until - self.now(), 0.0)
+                self.after(wait + self._u(0.03, 0.1), self._arrive, ball, src, dst, by_mpf, outcome)
                 return
+            lane = self.rng.choice(free) if len(free) > 1 else free[0]
             if len(td.inside) >= td.capacity:
                 self._bounce(ball, src, dst, by_mpf)
                 return
@@ -560,13 +575,14 @@ class World:
             self.balls[ball] = ("dev", dst)
             td.rest_since[ball] = self.now()
             self._log("arrive", dst, ball, src)
-            sn = td.switch_names[0]
+            sn = td.switch_names[lane]
             self.report(sn, 1)
             if td.full_timeout and len(td.inside) == td.capacity:
                 td.entrance_held = True          # device full: this ball rests on the entrance switch
             else:
                 closed_for = self._u(0.02, 0.09)
                 td.entrance_busy_until = self.now() + closed_for
+                td.lane_free_at[lane] = self.now() + max(closed_for, td.ignore_window) + 0.25
                 self.after(closed_for, self.report, sn, 0)
         if by_mpf and src != dst:
             self.deliveries[dst] = self.deliveries.get(dst, 0) + 1
@@ -632,6 +648,10 @@ class World:
         self._log("loose_to", dst, ball)
         self.after(t, self._arrive, ball, "playfield", dst, False)
         return True
+
+    def next_kick(self, dev, outcome):
+        """The script decides the physical outcome of the next kick of a device (e.g. 'stray': the ball gets lost)."""
+        self.faults.setdefault(dev, []).insert(0, outcome)
 
     def service_pulse_coil(self, dev):
         """Somebody pulses the eject coil of a pulse-coil device from the service menu / coil test (public Driver API)."""
